@@ -29,6 +29,87 @@ var solvers = []solverSpec{
 	}},
 }
 
+// symbolsOf lists the quoted symbols of a term.
+func symbolsOf(t string, into map[string]bool) {
+	for {
+		i := strings.Index(t, "|")
+		if i < 0 {
+			return
+		}
+		j := strings.Index(t[i+1:], "|")
+		if j < 0 {
+			return
+		}
+		into[t[i+1:i+1+j]] = true
+		t = t[i+j+2:]
+	}
+}
+
+// queryFiltered keeps only the assumptions within `depth` symbol-sharing steps of the goal.
+// Dropping assumptions is sound (it can only make an obligation harder to prove); it keeps the
+// solver from wandering through facts about unrelated heap versions.
+func (o *Obligation) queryFiltered(prelude string, depth int) string {
+	n := len(o.PC)
+	syms := make([]map[string]bool, n)
+	for i, a := range o.PC {
+		syms[i] = map[string]bool{}
+		symbolsOf(a, syms[i])
+	}
+	reached := map[string]bool{}
+	symbolsOf(o.Goal, reached)
+	keep := make([]bool, n)
+	for d := 0; d < depth; d++ {
+		var add []int
+		for i := 0; i < n; i++ {
+			if keep[i] {
+				continue
+			}
+			for sname := range syms[i] {
+				if reached[sname] {
+					add = append(add, i)
+					break
+				}
+			}
+		}
+		if len(add) == 0 {
+			break
+		}
+		for _, i := range add {
+			keep[i] = true
+		}
+		for _, i := range add {
+			// very large assertions (state axioms over many globals) do not propagate reachability
+			if len(syms[i]) > 12 {
+				continue
+			}
+			for sname := range syms[i] {
+				reached[sname] = true
+			}
+		}
+	}
+	var b strings.Builder
+	b.WriteString(prelude)
+	used := map[string]bool{}
+	symbolsOf(o.Goal, used)
+	for i, a := range o.PC {
+		if keep[i] {
+			symbolsOf(a, used)
+		}
+	}
+	for _, d := range o.ex.decls[:o.NDecl] {
+		if used[declName(d)] {
+			b.WriteString(d + "\n")
+		}
+	}
+	for i, a := range o.PC {
+		if keep[i] {
+			b.WriteString("(assert " + a + ")\n")
+		}
+	}
+	b.WriteString("(assert (not " + o.Goal + "))\n(check-sat)\n")
+	return b.String()
+}
+
 func (o *Obligation) query(prelude string, wantModel bool) string {
 	var b strings.Builder
 	if wantModel {
@@ -63,7 +144,15 @@ func runSolver(ctx context.Context, sp solverSpec, file string, timeoutS, seed i
 	_ = cmd.Run()
 	dur = time.Since(t0).Seconds()
 	out = buf.String()
-	first := strings.TrimSpace(strings.SplitN(out, "\n", 2)[0])
+	first := ""
+	for _, l := range strings.Split(out, "\n") {
+		l = strings.TrimSpace(l)
+		if l == "" || strings.HasPrefix(l, "WARNING") {
+			continue
+		}
+		first = l
+		break
+	}
 	switch first {
 	case "unsat":
 		return "unsat", out, dur
@@ -95,9 +184,27 @@ func discharge(o *Obligation, prelude, dir string, idx int, opts *Options) {
 		solver, status, out string
 		dur                 float64
 	}
-	useCVC5 := !strings.Contains(q, "(lambda")
-	ch := make(chan res, len(solvers))
+	useCVC5 := !strings.Contains(q, "(lambda") && !strings.Contains(q, "(as const")
+	ch := make(chan res, len(solvers)+4)
 	n := 0
+	for _, depth := range []int{2, 3, 5} {
+		n++
+		go func(depth int) {
+			f := fmt.Sprintf("%s.d%d.smt2", file, depth)
+			if err := os.WriteFile(f, []byte(o.queryFiltered(prelude, depth)), 0o644); err != nil {
+				ch <- res{"z3-new/filtered", "unknown", err.Error(), 0}
+				return
+			}
+			if opts.KeepSMT == "" {
+				defer os.Remove(f)
+			}
+			s, out, d := runSolver(ctx, solvers[0], f, opts.Timeout, opts.Seed)
+			if s == "sat" {
+				s = "unknown" // a model of a weakened query refutes nothing
+			}
+			ch <- res{fmt.Sprintf("z3-new/relevance-%d", depth), s, out, d}
+		}(depth)
+	}
 	for _, sp := range solvers {
 		if sp.name == "cvc5" && !useCVC5 {
 			continue
